@@ -182,7 +182,7 @@ h("cont.H_OptionalFault", map[string]int{"rounds": 3, "order_schemes": 1}, map[s
 	)
 	properties = append(properties,
 		propertySpec{ID: "C18", Harnesses: []harnessSpec{
-			h("cont.H_Builtins", map[string]int{"order_schemes": 1}, map[string]int{"order_schemes": 2}, []string{"consumer_resolved"}, 30, "scope tree (scope with caller context carrying a value and a cancel, child with nil context, grandchild with a derived value context, unrelated scope with nil context); a service of symbolic lifetime taking context.Context / Scope / Provider as parameters or parameter-object fields (4 shapes), optionally a scoped initializer taking all three; resolved at a symbolic node; identity of every injected built-in, direct requests, keyed requests, FromContext on scope and derived contexts, value and cancellation propagation"),
+			h("cont.H_Builtins", map[string]int{"order_schemes": 1}, map[string]int{"order_schemes": 2}, []string{"consumer_resolved", "warmup_ran"}, 30, "(optionally with a further singleton whose constructor uses the injected Provider WHILE Build runs: opens a scope with a value context, asks it for the consumer, closes it - registered before or after the world) scope tree (scope with caller context carrying a value and a cancel, child with nil context, grandchild with a derived value context, unrelated scope with nil context); a service of symbolic lifetime taking context.Context / Scope / Provider as parameters or parameter-object fields (4 shapes), optionally a scoped initializer taking all three; resolved at a symbolic node; identity of every injected built-in, direct requests, keyed requests, FromContext on scope and derived contexts, value and cancellation propagation"),
 			h("cont.H_Reserved", map[string]int{"order_schemes": 1}, map[string]int{"order_schemes": 1}, []string{"tried"}, 10, "ten ways of naming a built-in type in a registration (primary type, As, secondary return value, result-object field, with Name, with Group): all must be rejected, and the built-ins still resolve to the real thing"),
 		}},
 	)
